@@ -940,3 +940,17 @@ type OutFirst struct {
 // Props: a NAMED type whose underlying type is the type an untyped map decodes to. A list of such maps is a typed
 // destination that a decoded map[interface{}]interface{} is assignable to without being of that type (C14).
 type Props map[interface{}]interface{}
+
+// EmptyNamed declares the empty string as its wire name, which declares nothing: it travels under its Go name.
+// Witness of a repaired defect (extraction panicked); not part of the random zoo.
+type EmptyNamed struct {
+	A int32
+	L []int32
+}
+
+func (EmptyNamed) HessianCodecName() string { return "" }
+
+type EmptyNamedHolder struct {
+	X *EmptyNamed
+	M map[string]int32
+}
